@@ -135,7 +135,31 @@ def step_obligations(prop="C13"):
                 obs.append(c)
             continue
         obs.append(o)
+    # Opcodes of STEP_OPEN that close once the stack depth is pinned (5 of capacity 8: no realloc growth of the stack inside
+    # the step, slot indices concrete).  Bounded stand-ins, never counted as proved; the symbolic-depth obligation stays open.
+    for op, tier in STEP_PINNED.items():
+        o = vmstep.step(prop, "%s.step.%s.s5" % (prop, op), "h_step", op, must_have=[r"C13\.step", r"COVER"], timeout=900)
+        cfg = STEP_CFG.get(op, {})
+        base = 1 | 2 | 4
+        extra = {"POP": 8 | 16 | 32 | 64, "GC_RELEASE": 8 | 16 | 32 | 64}.get(op, 0) | (512 if op.startswith("HM_") else 0)
+        for k in ("VERIF_M0", "VERIF_M1", "VERIF_M2"):
+            o["defines"][k] = base | extra
+        o["defines"].update(cfg.get("defs", {}))
+        o["defines"]["VERIF_STACK_SIZE"] = 5
+        if cfg.get("checks"):
+            o["flags"] = cfg["checks"]
+        o["tier"] = tier
+        o["strength"] = "B(stack depth pinned: 5 slots of capacity 8%s)" % ("; " + cfg["bound"] if cfg.get("bound") else "")
+        obs.append(o)
     return obs
+
+
+# measured with the depth pinned (16-core box under load): ARR_PUSH 5 s, HM_NEW 4 s, HM_LEN 6 s, HM_HAS 37 s, HM_GET 46 s;
+# POP 400 s, STORE_GLOBAL 443 s, LOAD_GLOBAL 456 s, GC_RELEASE 471 s.  Still open with the depth pinned: ADD SUB MUL DIV (memory),
+# CALL* RET LOAD/STORE_UPVALUE HM_SET HM_DELETE HM_KEYS HM_VALUES (600 s), ARR_SLICE (needs every element materialised;
+# its semantics and census are C02.vm.ARR_SLICE / C14.step.ARR_SLICE.bounded).
+STEP_PINNED = {"ARR_PUSH": "quick", "HM_NEW": "quick", "HM_LEN": "quick", "HM_HAS": "quick", "HM_GET": "quick",
+               "POP": "thorough", "STORE_GLOBAL": "thorough", "LOAD_GLOBAL": "thorough", "GC_RELEASE": "thorough"}
 
 
 def obligations(repo):
